@@ -16,7 +16,8 @@
 //    property iff `next_instance` returns the smallest handle > previous THAT HAS MATCHING SAMPLES
 //    whenever such an instance exists -- this is what is asserted (no read is executed, cheap).
 //  * c23_wrapper_*: the mirrored wrapper end to end (real next_instance + real read) on the minimal
-//    shape: 2 instances, 1 stored sample (thorough tier: create_sample_collection is expensive).
+//    shape: 2 instances, 1 stored sample (create_sample_collection is expensive: the loops over the
+//    collection being built are capped at 2 iterations through the ptab entry's per-loop bounds).
 use core::cmp::{Ord, PartialEq, PartialOrd}; // (in scope for the trait paths of the kani::stub attributes)
 
 use super::support_reader2::*;
